@@ -31,7 +31,7 @@ import (
 
 // AllKinds is the full action alphabet (per user), simplest first.
 var AllKinds = []string{"new", "comment", "title", "status", "label", "editcomment", "twoedits", "commentlast", "setmeta",
-	"idmutate", "push", "pull", "remove", "resolveall", "reopen"}
+	"idmutate", "idsetmeta", "push", "pull", "remove", "resolveall", "reopen"}
 
 // Params selects the alphabet and the acting users.
 type Params struct {
@@ -585,6 +585,20 @@ func (m *model) apply(k, x string) (string, []xstate.Violation, error) {
 			return "mutate-" + errTag(err), nil, nil
 		}
 		if err := u.Commit(); err != nil {
+			return "commit-" + errTag(err), nil, nil
+		}
+		return "ok", nil, nil
+	case "idsetmeta":
+		// what configuring a bridge does to the current user: tag the identity, which is already
+		// in the cache, with a piece of metadata and commit it
+		m.nEdit[x]++
+		m.note(x, "idsetmeta")
+		u, err := c.GetUserIdentity()
+		if err != nil {
+			return "user-" + errTag(err), nil, nil
+		}
+		u.SetMetadata(IdMetaKey, IdMetaValue+x)
+		if err := u.CommitAsNeeded(); err != nil {
 			return "commit-" + errTag(err), nil, nil
 		}
 		return "ok", nil, nil
